@@ -10,7 +10,7 @@
 -/
 import Mathlib.Tactic.Ring
 import Mathlib.Tactic.NormNum
-import TfelVerif.C22.Gen
+import TfelVerif.C22.GenMC
 
 namespace TfelVerif.C22.Props
 open TfelVerif TfelVerif.C22
